@@ -250,7 +250,8 @@ fn judge_f64(st: &mut Stats, rng: &mut Rng) {
         // det under a diagonal similarity scaling D T D^-1 (sub_i * 2^-e_i, sup_i * 2^e_i: every product sub_i*sup_i, hence
         // the determinant, is unchanged bit for bit) with the first row scaled by 2^300 (det scales by exactly 2^300)
         if n >= 2 {
-            let es: Vec<i32> = (0..n - 1).map(|_| rng.int(-700, 700) as i32).collect();
+            // (the first pair shares row 0 with the 2^300 factor, hence the smaller range there)
+            let es: Vec<i32> = (0..n - 1).map(|i| if i == 0 { rng.int(-600, 600) } else { rng.int(-900, 900) } as i32).collect();
             let t3 = Tri { sub: (0..n - 1).map(|i| tf.sub[i] * 2f64.powi(-es[i])).collect::<Vec<f64>>(), main: (0..n).map(|i| if i == 0 { tf.main[0] * 2f64.powi(300) } else { tf.main[i] }).collect(), sup: (0..n - 1).map(|i| tf.sup[i] * 2f64.powi(es[i]) * if i == 0 { 2f64.powi(300) } else { 1.0 }).collect() };
             if t3.sup.iter().chain(&t3.sub).all(|x| x.is_finite()) {
                 st.eval();
